@@ -365,7 +365,7 @@ func progs(n int, yield func([]int) bool) {
 func init() {
 	register("C04", "model_checking", func(c *Ctx) {
 		if c.R != nil {
-			c.R.Rule = "(a) complete table IE(32) x IF(32) x IME(2) (+ unused high bits) at an instruction boundary; (b) every program of the length bound over {NOP, EI, DI, RETI, INC A, LDH (0F),A, LDH (FF),A, LD A,00, LD A,1F} x initial IME x IE in {00,1F,01,04,10,05} x one interrupt request of every source raised before every machine cycle 0..13 (and none; thorough: two requests); the real CPU runs cycle by cycle, the reference control machine boundary by boundary; compared at every boundary: boundary times (dispatch = 5 cycles), all registers, IF, IE, pushed return address"
+			c.R.Rule = "(a) complete table IE(32) x IF(32) x IME(2) (+ unused high bits) at an instruction boundary; (b) every program of the length bound over {NOP, EI, DI, RETI, INC A, LDH (0F),A, LDH (FF),A, LD A,00, LD A,1F} x initial IME x IE in {00,1F,01,04,10,05} x one interrupt request of every source raised before every machine cycle 0..13 (and none), and for programs of up to 2 instructions (thorough 3) every pair of requests; the real CPU runs cycle by cycle, the reference control machine boundary by boundary; compared at every boundary: boundary times (dispatch = 5 cycles), all registers, IF, IE, pushed return address"
 			c.R.Assumptions = []string{"a request arriving while a dispatch is in progress: which source wins is unspecified (pruned)", "the IME flag itself is not observed, only its behavioural effect", "HALT directly after EI is outside this alphabet (C05 covers HALT)"}
 		}
 		explore.Product(c.R, "boundary-table", explore.PartOpt{Bound: "one boundary + following instruction", Domain: "IE 0-31 x IF 0-31 x IME x high bits {00,E0}"},
@@ -389,7 +389,7 @@ func init() {
 					progs(ln, func(p []int) bool {
 						for _, ie := range []uint8{0x00, 0x1f, 0x01, 0x04, 0x10, 0x05} {
 							for _, ime := range []bool{false, true} {
-								if !yield(c04Block{Fam: "prog", Prog: p, IE: ie, IME: ime, Two: c.Thorough() && ln <= 2}) {
+								if !yield(c04Block{Fam: "prog", Prog: p, IE: ie, IME: ime, Two: ln <= 2 || (c.Thorough() && ln <= 3)}) {
 									ok = false
 									return false
 								}
